@@ -81,7 +81,13 @@ func generate(w *mon.W) {
 		if kind == "statements" || kind == "not-nest" {
 			continue
 		}
-		for _, n := range gen.WideSizes {
+		sizes := gen.WideSizes
+		switch kind {
+		case "in", "in-consts", "let-uses", "where-consts", "wheres", "and", "plus", "project", "lets", "call-args":
+			// list-like constructs also in sizes of a few thousand
+			sizes = append(append([]int{}, sizes...), gen.WideSizesBig...)
+		}
+		for _, n := range sizes {
 			twin := gen.Wide(kind, n)
 			planted, path := plant(gen.CloneProgram(twin), []string{"arity", "leftright", "rowcount", "two-queries"}[n%4], rng)
 			if planted == nil {
